@@ -362,8 +362,8 @@ func (w *World) disabled(ingredient string) bool {
 }
 
 func (w *World) violate(prop, oracle, format string, args ...interface{}) {
-	if w.viol != nil {
-		return
+	if w.viol != nil || w.tainted {
+		return // tainted: the run was ended unjudged (a listed known finding surfaced, or the run was abandoned)
 	}
 	if !w.checks(prop) {
 		return
